@@ -133,6 +133,14 @@ class Harness(cm.BaseA):
                     ev.append(["dispense", "w", lw, [wid, alias], [J(room / 2), J(na(room / 2))], {}])
                     ev.append(["aspirate", "w", lw, [alias, wid], [J(av / 2), J(na(av / 2))], {}])
                     ev.append(["remove", lw, {"$a": [[wid], [alias]]}, J(av / 2), {}])
+        if full:
+            for lw, wid, _ in self.CELLS[:3]:
+                v = self._vol(W, lw, wid)
+                for lab in ("fill {buffer}", "step {0}", "50 % {"):
+                    ev.append(["add", lw, wid, J(na(mx - v)), {"label": lab}])
+                    ev.append(["remove", lw, wid, J(na(v - mn)), {"label": lab}])
+                    ev.append(["dispense", "w", lw, [wid], [J(na(mx - v))], {"label": lab}])
+                    ev.append(["aspirate", "w", lw, [wid], [J(na(v - mn))], {"label": lab}])
         # two different wells in one call: the second is refused after the first was applied
         for lw, w1, w2 in (("A", "A01", "B01"), ("S", "A01", "A02")):
             v1, v2 = self._vol(W, lw, w1), self._vol(W, lw, w2)
@@ -314,7 +322,7 @@ class Harness(cm.BaseA):
                 V.append(("C02/wrong-exception-class", f"{op} raised {type(exc).__name__}, expected {cls}"))
             elif volexc and float(post[lw][cell]).hex() != float(expect).hex():
                 V.append(("C02/offending-well-changed", f"{op}: {lw}{cell} is {post[lw][cell]!r} after {cls}, expected {expect!r}"))
-            elif not exc_is(exc, "VolumeViolationException") and op in ("add", "remove"):
+            elif not exc_is(exc, "VolumeViolationException") and op in ("add", "remove", "aspirate", "dispense", "evo_aspirate", "evo_dispense", "transfer"):
                 V.append(("C02/wrong-exception-class", f"{op} raised {type(exc).__name__}, expected {cls}"))
         if volexc:
             # (d) the well named in the message was not modified by the refused step
